@@ -54,7 +54,7 @@ def wmat(nr, nc, triples):
 def mspec(nr, nc, triples, dtype=None):
     if dtype is None:
         dtype = 'int' if all(float(w) == int(w) for _, _, w in triples) else 'float'
-    return {'shape': [nr, nc], 'coo': [[i, j, (int(w) if dtype == 'int' else float(w))] for i, j, w in triples],
+    return {'shape': [nr, nc], 'coo': [[i, j, (float(w) if dtype in ('float', 'float32') else int(w))] for i, j, w in triples],
             'dtype': dtype, 'fmt': 'csr'}
 
 
@@ -427,8 +427,14 @@ def run_optimisers(ctx, scratch, rng, quick):
                     force_bipartite=(shape == 'bipartite' and nr == nc) or (shape != 'bipartite' and rng.random() < 0.05))
         if opts['shuffle_nodes']:
             opts['random_state'] = rng.randrange(1000)
-        cases.append(dict(fam='%s_%s' % (shape, fam), nr=nr, nc=nc, triples=T, opts=opts, wkind=wk,
-                          integer=(wk != 'dyadic')))
+        store = None
+        if wk != 'dyadic' and rng.random() < 0.2:
+            # integer weights in other units (x40 / x20: modularity does not depend on the unit), stored in a narrow integer type in
+            # which the sum of two reciprocal weights does not fit (uint8: 2 x 160 = 64 mod 256; int8: 2 x 80 = -96)
+            store, mult = rng.choice([('uint8', 40), ('int8', 20), ('int32', 40), ('float32', 40)])
+            T = [(i, j, w * mult) for (i, j, w) in T]
+        cases.append(dict(fam='%s_%s%s' % (shape, fam, '_' + store if store else ''), nr=nr, nc=nc, triples=T, opts=opts, wkind=wk,
+                          integer=(wk != 'dyadic'), store=store))
 
     def working(c):
         bip = c['opts']['force_bipartite'] or c['nr'] != c['nc']
@@ -450,7 +456,7 @@ def run_optimisers(ctx, scratch, rng, quick):
             sing = kind_objective(kind, n, T, list(range(n)), gamma)
             per_algo = {}
             for algo in ('louvain', 'leiden'):
-                args = dict(algo=algo, m=mspec(c['nr'], c['nc'], c['triples']), want_index=True)
+                args = dict(algo=algo, m=mspec(c['nr'], c['nc'], c['triples'], dtype=c.get('store')), want_index=True)
                 args.update(c['opts'])
                 r = impl.call('c06', 'optimiser', args, timeout=8)
                 ctx.traces += 1
